@@ -16,6 +16,9 @@ import (
 // ------------------------------------------------------------------ C10
 
 type pbSpec struct {
+	Kind      string `json:"kind"`      // "" sequence | "initial-delay"
+	Delay     int    `json:"delay"`     // initial_delay_seconds (initial-delay kind)
+	Op        string `json:"op"`        // initial-delay kind: "stop" | "restart" during the delay
 	Seq       []int  `json:"seq"`       // probe outcomes, 1 ok / 0 fail
 	Threshold int    `json:"threshold"` // failure_threshold
 	Restart   string `json:"restart"`
@@ -33,7 +36,18 @@ func genPbSpec(rng *rand.Rand, i int) pbSpec {
 		}
 		sp.Seq = append(sp.Seq, v)
 	}
-	switch i % 4 {
+	switch i % 6 {
+	case 4: // two fatal runs in a row (the second must stop the relaunched command too)
+		sp.Restart = []string{"always", "on_failure"}[rng.Intn(2)]
+		sp.Seq = nil
+		for k := 0; k < 2*sp.Threshold; k++ {
+			sp.Seq = append(sp.Seq, 0)
+		}
+		sp.Seq = append(sp.Seq, 1, 1)
+	case 5: // stop / restart while the probe is still inside its initial delay
+		sp.Kind, sp.Delay, sp.Op = "initial-delay", 1+rng.Intn(2), []string{"stop", "restart"}[rng.Intn(2)]
+		sp.Seq = nil
+		sp.Threshold = 3
 	case 0: // guaranteed fatal run of failures
 		at := rng.Intn(len(sp.Seq))
 		sp.Seq = sp.Seq[:at]
@@ -56,6 +70,9 @@ func genPbSpec(rng *rand.Rand, i int) pbSpec {
 func runProbeCase(c fw.Case) fw.Result {
 	var sp pbSpec
 	c.Params(&sp)
+	if sp.Kind == "initial-delay" {
+		return runProbeDelayCase(c, sp)
+	}
 	spec := LifeSpec{BackoffUnitMs: 20, SilenceMs: 8000, MaxMs: 40000}
 	p := PSpec{Name: "hp", RunMs: []int{-1}, Restart: sp.Restart, ProbeSeq: sp.Seq}
 	if sp.Daemon {
@@ -71,7 +88,6 @@ func runProbeCase(c fw.Case) fw.Result {
 	if sp.Dependent {
 		spec.Procs = append(spec.Procs, PSpec{Name: "dp", RunMs: []int{-1}, Deps: []Dep{{On: "hp", Cond: types.ProcessConditionHealthy}}})
 	}
-	// after the scripted outcomes the endpoint keeps answering ok; shut down a bit later
 	// probes are served on the full second: the shutdown lands in between
 	spec.Ops = []Op{{When: fmt.Sprintf("t:%d", (len(sp.Seq)+2)*1000+500), Op: "shutdown"}}
 	lr := RunLife(c.Seed, &spec, nil)
@@ -89,18 +105,29 @@ func runProbeCase(c fw.Case) fw.Result {
 		}
 	}
 	ix := indexLife(lr.Events)
-	// walk the log
-	consec := 0
-	fatalAt := -1   // seq of the probe that completed the threshold
-	probes := 0
-	lastOutcome := -1 // of the most recent probe since the last launch
-	sawOKSinceLaunch := false
 	shutdownSeq := 1 << 30
+	var shutdownT int64 = 1 << 62
 	if len(ix.shutdownEnter) > 0 {
 		shutdownSeq = ix.shutdownEnter[0]
+		shutdownT = lr.Events[shutdownSeq].T
 	}
-	signalledByProbe := -1
-	lateFatal := false
+	restartable := sp.Restart == "always" || sp.Restart == "on_failure"
+	pl := ix.procs["hp"]
+	// walk the log attempt by attempt
+	att := 0          // current attempt (launch number), 0 = none yet
+	consec := 0       // consecutive failed probes served to the current attempt
+	fatalAt := -1     // seq of the probe that completed the threshold for the current attempt
+	lastOutcome := -1 // most recent probe outcome of the current attempt
+	sawOK := false
+	signalled := false // current attempt received its stop signal
+	probes := 0
+	fatalRuns := 0
+	endAttempt := func(nextLaunchSeq int) {
+		// judged when the next attempt starts or at the end
+		if fatalAt >= 0 && !sp.Daemon && !signalled {
+			r.Add("C10", "no-stop-after-threshold", "hp (attempt %d) failed %d consecutive readiness probes (threshold reached at seq %d) but was not stopped", att, sp.Threshold, fatalAt)
+		}
+	}
 	for i := range lr.Events {
 		e := &lr.Events[i]
 		if e.Proc != "hp" {
@@ -111,21 +138,23 @@ func runProbeCase(c fw.Case) fw.Result {
 		}
 		switch e.Kind {
 		case sim.EvLaunch:
-			lastOutcome, sawOKSinceLaunch = -1, false
-			consec = 0
+			if att > 0 {
+				endAttempt(e.Seq)
+			}
+			att = e.Att
+			consec, fatalAt, lastOutcome, sawOK, signalled = 0, -1, -1, false, false
 		case sim.EvProbe:
 			probes++
 			if e.Flag {
-				lastOutcome, sawOKSinceLaunch, consec = 1, true, 0
+				lastOutcome, sawOK, consec = 1, true, 0
 			} else {
 				lastOutcome = 0
 				consec++
 				if consec == sp.Threshold && fatalAt < 0 {
 					// a threshold reached less than 300 ms before the shutdown is not judged
-					if shutdownSeq == 1<<30 || lr.Events[shutdownSeq].T-e.T > 300e6 {
+					if shutdownT-e.T > 300e6 {
 						fatalAt = e.Seq
-					} else {
-						lateFatal = true
+						fatalRuns++
 					}
 				}
 			}
@@ -136,8 +165,11 @@ func runProbeCase(c fw.Case) fw.Result {
 			r.Count("health_writes_checked", 1)
 			switch e.Str {
 			case types.ProcessHealthReady:
-				if !sawOKSinceLaunch || lastOutcome != 1 {
+				if !sawOK || lastOutcome != 1 {
 					r.Add("C10", "ready-without-success", "hp reported Ready (seq %d) but the most recent probe since its launch did not succeed", e.Seq)
+				}
+				if !ix.aliveAt("hp", e.Seq) {
+					r.Add("C10", "ready-while-not-running", "hp reported Ready (seq %d) while none of its commands is alive", e.Seq)
 				}
 			case types.ProcessHealthNotReady:
 				if lastOutcome != 0 {
@@ -145,10 +177,10 @@ func runProbeCase(c fw.Case) fw.Result {
 				}
 			}
 		case sim.EvSignal:
-			if signalledByProbe < 0 {
-				signalledByProbe = e.Seq
-				if (fatalAt < 0 || e.Seq < fatalAt) && !lateFatal {
-					r.Add("C10", "stopped-before-threshold", "hp received a stop signal (seq %d) after %d consecutive failed probes, failure_threshold is %d", e.Seq, consec, sp.Threshold)
+			if e.Att == att && !signalled {
+				signalled = true
+				if fatalAt < 0 && shutdownT-e.T > 300e6 {
+					r.Add("C10", "stopped-before-threshold", "hp (attempt %d) received a stop signal (seq %d) after %d consecutive failed probes, failure_threshold is %d", att, e.Seq, consec, sp.Threshold)
 				}
 			}
 		case sim.EvState:
@@ -158,42 +190,54 @@ func runProbeCase(c fw.Case) fw.Result {
 			}
 		}
 	}
+	if att > 0 {
+		endAttempt(shutdownSeq)
+	}
 	r.Count("probes_served", probes)
-	pl := ix.procs["hp"]
-	restartable := sp.Restart == "always" || sp.Restart == "on_failure"
-	if fatalAt >= 0 && pl != nil {
-		if !sp.Daemon {
-			// stopped, then relaunched iff the policy says so
-			if signalledByProbe < 0 {
-				r.Add("C10", "no-stop-after-threshold", "hp failed %d consecutive readiness probes (threshold reached at seq %d) but was never stopped", sp.Threshold, fatalAt)
-			} else {
-				relaunched := false
-				for _, l := range pl.Launches {
-					if l.Seq > signalledByProbe && l.Seq < shutdownSeq {
-						relaunched = true
+	r.Count("fatal_runs", fatalRuns)
+	// relaunch iff the policy says so, after the first fatal run
+	if pl != nil && fatalRuns > 0 {
+		firstFatal := -1
+		c2, a2 := 0, 0
+		for i := range lr.Events {
+			e := &lr.Events[i]
+			if e.Proc != "hp" || e.Seq > shutdownSeq {
+				continue
+			}
+			if e.Kind == sim.EvLaunch {
+				c2, a2 = 0, e.Att
+			}
+			if e.Kind == sim.EvProbe {
+				if e.Flag {
+					c2 = 0
+				} else {
+					c2++
+					if c2 == sp.Threshold && firstFatal < 0 && shutdownT-e.T > 300e6 {
+						firstFatal = e.Seq
+						_ = a2
 					}
 				}
-				if restartable && !relaunched {
-					r.Add("C10", "not-relaunched-after-fatal", "hp (restart: %s) was stopped after the fatal readiness failure but not relaunched before the shutdown", sp.Restart)
-				}
-				if !restartable && relaunched {
-					r.Add("C10", "relaunched-despite-policy", "hp (restart: %q) was relaunched after the fatal readiness failure", sp.Restart)
-				}
+			}
+		}
+		relaunched, completed := false, false
+		for _, l := range pl.Launches {
+			if l.Seq > firstFatal && l.Seq < shutdownSeq {
+				relaunched = true
+			}
+		}
+		for _, st := range pl.States {
+			if st.Seq > firstFatal && st.Seq < shutdownSeq && st.Str == types.ProcessStateCompleted {
+				completed = true
+			}
+		}
+		if !sp.Daemon {
+			if restartable && !relaunched {
+				r.Add("C10", "not-relaunched-after-fatal", "hp (restart: %s) was stopped after the fatal readiness failure but not relaunched before the shutdown", sp.Restart)
+			}
+			if !restartable && relaunched {
+				r.Add("C10", "relaunched-despite-policy", "hp (restart: %q) was relaunched after the fatal readiness failure", sp.Restart)
 			}
 		} else {
-			// daemon: treated as exited -> restart policy
-			relaunched := false
-			completed := false
-			for _, l := range pl.Launches {
-				if l.Seq > fatalAt && l.Seq < shutdownSeq {
-					relaunched = true
-				}
-			}
-			for _, st := range pl.States {
-				if st.Seq > fatalAt && st.Seq < shutdownSeq && st.Str == types.ProcessStateCompleted {
-					completed = true
-				}
-			}
 			if sp.Restart == "always" && !relaunched {
 				r.Add("C10", "daemon-not-relaunched", "daemon hp (restart: always) failed %d liveness probes in a row but was not relaunched", sp.Threshold)
 			}
@@ -205,9 +249,6 @@ func runProbeCase(c fw.Case) fw.Result {
 			}
 		}
 	}
-	if fatalAt < 0 && signalledByProbe >= 0 {
-		// already reported as stopped-before-threshold
-	}
 	if len(r.Findings) > 0 {
 		r.Witness = witness(lr, 300)
 	}
@@ -215,6 +256,59 @@ func runProbeCase(c fw.Case) fw.Result {
 	if c.Idx < 3 {
 		r.Sample = map[string]any{"spec": sp, "events": sim.FormatEvents(lr.Events)}
 	}
+	return r
+}
+
+// runProbeDelayCase: a stop or restart request arrives while the readiness
+// probe is still inside its initial delay; the endpoint always answers ok.
+func runProbeDelayCase(c fw.Case, sp pbSpec) fw.Result {
+	spec := LifeSpec{BackoffUnitMs: 20, SilenceMs: 8000, MaxMs: 40000}
+	p := PSpec{Name: "hp", RunMs: []int{-1}, Probe: true, ProbeFail: 3, ProbeDelay: sp.Delay, ProbeSeq: []int{1}}
+	spec.Procs = []PSpec{p}
+	spec.Ops = []Op{
+		{When: "launch:hp", Op: "probe_ok", Proc: "hp"},
+		{When: "t:300", Op: sp.Op, Proc: "hp"},
+		{When: fmt.Sprintf("t:%d", sp.Delay*1000+1500+sp.Delay*1000), Op: "shutdown"},
+	}
+	lr := RunLife(c.Seed, &spec, nil)
+	r := fw.Result{NonTrivial: true}
+	if lr.LoadErr != nil {
+		r.Inconclusive = "load: " + lr.LoadErr.Error()
+		return r
+	}
+	if lr.Outcome != sim.RunReturned {
+		r.Dirty = true
+		r.Inconclusive = "run did not return"
+	}
+	ix := indexLife(lr.Events)
+	delayNs := int64(sp.Delay) * 1e9
+	var lastLaunchT int64 = -1
+	for i := range lr.Events {
+		e := &lr.Events[i]
+		if e.Proc != "hp" {
+			continue
+		}
+		switch e.Kind {
+		case sim.EvLaunch:
+			lastLaunchT = e.T
+		case sim.EvHealth:
+			if e.Str != types.ProcessHealthReady {
+				continue
+			}
+			r.Count("health_writes_checked", 1)
+			if !ix.aliveAt("hp", e.Seq) {
+				r.Add("C10", "ready-while-not-running", "hp reported Ready (seq %d) although it was stopped during the initial delay and none of its commands is alive", e.Seq)
+			}
+			// lower bound: the probe of the current command cannot have run before its initial delay elapsed
+			if lastLaunchT >= 0 && e.T-lastLaunchT < delayNs-50e6 {
+				r.Add("C10", "ready-before-own-probe", "hp reported Ready %.0f ms after its (re)launch although its readiness probe has an initial delay of %d s: the result of the previous instance's probe was used", float64(e.T-lastLaunchT)/1e6, sp.Delay)
+			}
+		}
+	}
+	if len(r.Findings) > 0 {
+		r.Witness = witness(lr, 200)
+	}
+	r.Sig = sim.Hash(fmt.Sprint(sp))
 	return r
 }
 
@@ -299,7 +393,7 @@ func runProbeGrid(c fw.Case) fw.Result {
 func init() {
 	fw.Register(&fw.Property{
 		ID: "C10", Level: "exploration",
-		Rule: "http probes against a harness endpoint that serves the k-th probe of a process with a scripted outcome and records it before answering (logical outcome sequence, real 1 s period): outcome sequences of length 2-10 over {ok, fail}, failure_threshold 1-3, restart policies {unset,no,always,on_failure}, readiness on a long-running process (optionally with a process_healthy dependent) and liveness on a daemon; oracle: Ready/Not Ready only after a matching served outcome, stop exactly at the threshold-th consecutive failure, relaunch iff the policy says so, readiness forgotten at Restarting/Terminating, daemon treated as exited; plus the complete parameter grid {-5,0,1,3}^5 x 8 port strings through ValidateAndSetDefaults (legality, idempotence) and the loader; distinct = outcome sequence x threshold x policy",
+		Rule:        "http probes against a harness endpoint that serves the k-th probe of a process with a scripted outcome and records it before answering (logical outcome sequence, real 1 s period): outcome sequences of length 2-10 over {ok, fail}, failure_threshold 1-3, restart policies {unset,no,always,on_failure}, readiness on a long-running process (optionally with a process_healthy dependent) and liveness on a daemon; oracle: Ready/Not Ready only after a matching served outcome, stop exactly at the threshold-th consecutive failure, relaunch iff the policy says so, readiness forgotten at Restarting/Terminating, daemon treated as exited; plus the complete parameter grid {-5,0,1,3}^5 x 8 port strings through ValidateAndSetDefaults (legality, idempotence) and the loader; distinct = outcome sequence x threshold x policy",
 		Assumptions: []string{"success_threshold is documented as not implemented and not judged", "exec probes are not exercised here"},
 		Gen: func(seed int64, tier string) []fw.Case {
 			var cs []fw.Case
